@@ -207,8 +207,8 @@ Returns:
                 self._resim = True #NOTE: simplex was reset, energies are stale
             else:
                 x0 = self._clipGuessWithinRangeBoundary(self.population[0])
-                if len(self._stepmon) and numpy.any(x0 != self.population[0]):
-                    self._resim = True #NOTE: x0 was moved after evaluation
+                if len(self._stepmon): #NOTE: x0 was evaluated with the old cost
+                    self._resim = True
                 self.population[0] = x0
             cost = wrap_bounds(cost, self._strictMin, self._strictMax) #XXX: remove?
             from mystic.constraints import and_
